@@ -74,6 +74,16 @@ def main():
     for line in open(sys.argv[2]):
         sc = json.loads(line)
         c = sc["cfg"]
+        if sc.get("decl"):          # a declaration on its own: is it accepted?
+            ev = {"e": "decl", "kind": c["kind"], "lo": c["lo"], "hi": c["hi"], "unb": c["unb"], "uniq": c["uniq"], "opt": c["opt"],
+                  "acc": True, "exc": ""}
+            try:
+                mk(c)
+            except Exception as e:
+                ev["acc"] = False
+                ev["exc"] = type(e).__name__
+            out.write(json.dumps(ev) + "\n")
+            continue
         base, concrete = sc.get("base", "INTEGER"), sc.get("concrete")
         a = mk(c, BASE[base])
         out.write(json.dumps({"e": "new", "kind": c["kind"], "lo": c["lo"], "hi": c["hi"], "unb": c["unb"],
